@@ -62,22 +62,23 @@ claimed = {
 
 # additions of the build round (rules added after testing against seeded changes, see DESIGN.md §8)
 more = {
- "C01": "; precedence-climbing chain of the expression parser vs Go's levels; driver lowering protocol of if/for; drop rule (node assembled in a parser loop never replaced as a whole); chain rule (elif/else continue one compound command); sign rule (lexer's operand-ender table); test-command order operators; pop discipline of loop/if stacks",
- "C02": "; frame rule (function-local prefix = counter advanced only by FuncStart), pop discipline of the function stack, braced computed positional parameters, driver protocol of calls/returns, variable identity rule on the parser side",
+ "C01": "; precedence-climbing chain of the expression parser vs Go's levels; driver lowering protocol of if/for; drop rule (node assembled in a parser loop never replaced as a whole); chain rule (elif/else continue one compound command); sign rule (lexer's operand-ender table); test-command order operators; pop discipline of loop/if stacks; stderr rule (a converter-owned variable that a template sets to the empty text is never an unquoted operand of a numeric test); integer-literal rule shared with C11",
+ "C02": "; frame rule (function-local prefix = counter advanced only by FuncStart), pop discipline of the function stack, braced computed positional parameters, driver protocol of calls/returns, variable identity rule on the parser side; re-entrancy rule (values of a nested construct collected in locals of the activation, not in the shared driver object)",
  "C03": "; helper scratch-variable clash, helper accumulator initialisation, numeric test operators in Bash helpers, driver protocol of slice/string nodes",
  "C04": "; source-order rule (slots the driver evaluates in a fixed order hold expressions parsed in that order)",
  "C05": "; block-exit rule (goto before every line closing a user block), chain rule, depth-derived instance names, pop discipline, length-monotone rule of the slice assignment helper",
- "C06": "; per-element loop/producer guards (every iteration passes the test, adopt edges), substitution rule (parsed value replaced by a synthesised node only for the nil literal)",
+ "C06": "; per-element loop/producer guards (every iteration passes the test, adopt edges), substitution rule (parsed value replaced by a synthesised node only for the nil literal); constant folding of the scalar type predicates over the finite set of value types (false for every slice type)",
  "C07": "; visibility predicate (first rune upper case), header-order rule (construct variables declared after the header expressions), path-based final-return rule",
- "C09": "; accumulate / add-if-absent / filter-flag rules on the import merge loops, prefix = digest of the whole content",
- "C10": "; helper-local names discharged when no user-named variable is dereferenced in scope; prefix digest rule",
- "C11": "; position bookkeeping computed from the consumed source text, column base reset only under a line-break test, one-character accessor total below the length",
+ "C09": "; accumulate / add-if-absent / filter-flag rules on the import merge loops, prefix = digest of the whole content; closure rule (the set of functions to keep is computed by reading call edges by key only); the digest object is made anew for every file",
+ "C10": "; helper-local names discharged when no user-named variable is dereferenced in scope; prefix digest rule; pop discipline of the function stack (top-level names never carry a function's prefix)",
+ "C11": "; position bookkeeping computed from the consumed source text, column base reset only under a line-break test, one-character accessor total below the length; extent clause (line breaks are counted in the very text the position was advanced by)",
  "C12": "; end-of-input look-ahead rule (NEWLINE as terminator implies a further test before parsing on), operand-ender table of the sign probe",
  "C13": "; visited-set idioms for recursion over relations (value tested = value recursed on; entry guard with grown collection), lexer class tests fail on the empty string",
  "C16": "; driver bracket projection, every admitted statement kind emits a line (expression statements restricted, handler reaches an always-emitting converter method), called functions stay defined (edge/merge rules)",
  "C17": "; driver protocol of write/read/exists, helper accumulator initialisation in both back ends, second-level quoting class inside eval",
  "C18": "; driver protocol of command calls, capture line is a bare assignment in every variant (no command word masking $?)",
  "C19": "; no package-level state written after initialisation in any library package",
+ "C08": "; driver protocol of the string-handling nodes (the driver never computes on the text of a string itself)",
 }
 na_reason = {
  "C15": "value-level agreement of a TypeShell library executed by a shell with Go's strings package over all arguments; no clause of it is visible in the shape of the Go sources or of std/strings.tsh; static analysis (this task's technique family) cannot address it",
